@@ -307,6 +307,9 @@ type C18UOp struct {
 	Size   int           `json:"size"` // reply size
 	Seed   int64         `json:"seed"`
 	Key    int           `json:"key"`
+	// raw/plain: 0 = the client that already has an association, 1..3 = other client sockets (a hostile datagram
+	// can also be the first one of a client address)
+	Client int `json:"client,omitempty"`
 }
 
 type C18UDP struct {
@@ -325,7 +328,8 @@ func genC18UDP(t *rapid.T) C18UDP {
 			Kind: rapid.SampledFrom([]string{"raw", "plain", "plain", "good", "reply", "reply", "reply", "shutdown"}).Draw(t, "kind"),
 			Raw:  rapid.SampledFrom([]int{0, 1, 15, 16, 17, 31, 32, 33, 48, 49, 50, 1000, 65507}).Draw(t, "raw"), Header: genHostileHeader(t),
 			Src: rapid.SampledFrom(c18SrcClasses).Draw(t, "src"), Size: rapid.SampledFrom([]int{0, 1, 100, 1472, 9000, 65000, 65400, 65507}).Draw(t, "size"),
-			Seed: rapid.Int64Range(1, 1<<40).Draw(t, "seed"), Key: rapid.IntRange(0, len(c.Keys)-1).Draw(t, "key")})
+			Seed: rapid.Int64Range(1, 1<<40).Draw(t, "seed"), Key: rapid.IntRange(0, len(c.Keys)-1).Draw(t, "key"),
+			Client: rapid.SampledFrom([]int{0, 0, 1, 2, 3}).Draw(t, "client")})
 	}
 	return c
 }
@@ -394,6 +398,19 @@ func runC18UDP(c C18UDP, info *kit.Info) *kit.Finding {
 	frontAddr := &net.UDPAddr{IP: net.IPv4(127, 0, 0, 1), Port: front.Addr.Port}
 	key0 := c.Keys[0].Key()
 	natPort := 0
+	others := map[int]*kit.UDPPeer{}
+	from := func(i int) *kit.UDPPeer {
+		if i == 0 {
+			return cl
+		}
+		if others[i] == nil {
+			if others[i] = mk("127.0.0.1"); others[i] == nil {
+				return cl
+			}
+			info.Class("udp:hostile-first-datagram-of-a-client")
+		}
+		return others[i]
+	}
 	good := func(when string, seed int64) *kit.Finding {
 		tag := fmt.Sprintf("good-%d", seed)
 		var d kit.Datagram
@@ -421,10 +438,10 @@ func runC18UDP(c C18UDP, info *kit.Info) *kit.Finding {
 		info.Class("udp:" + op.Kind)
 		switch op.Kind {
 		case "raw":
-			cl.Send(kit.DetBytes(op.Seed, op.Raw), frontAddr)
+			from(op.Client).Send(kit.DetBytes(op.Seed, op.Raw), frontAddr)
 		case "plain":
 			k := c.Keys[op.Key].Key()
-			cl.Send(kit.PackUDP(k, kit.DetBytes(op.Seed, k.SaltSize()), op.Header.bytes(tgt.Addr.Port, op.Seed)), frontAddr)
+			from(op.Client).Send(kit.PackUDP(k, kit.DetBytes(op.Seed, k.SaltSize()), op.Header.bytes(tgt.Addr.Port, op.Seed)), frontAddr)
 			info.NonTrivial = true
 		case "good":
 			if f := good(fmt.Sprintf("op %d", i), op.Seed); f != nil {
